@@ -105,7 +105,7 @@ func decodeSegmented(stream []byte, segs []int, compressed bool, rev int, cols [
 func TestC08ReaderSegmentation(t *testing.T) {
 	st := stats.G()
 	rapid.Check(t, func(rt *rapid.T) {
-		cols, rows := drawBlock(rt, 3)
+		cols, rows := drawBlockWide(rt, 3)
 		rev := rapid.SampledFrom(blockRevs).Draw(rt, "rev")
 		_, in := libInput(cols, false)
 		blk := proto.Block{Info: proto.BlockInfo{BucketNum: -1}, Columns: len(in), Rows: rows}
